@@ -28,16 +28,17 @@ theorem implicit_arrays_once (refs dimmed : List String) :
   simp [mem_sortStrings, List.mem_filter, List.contains_iff_mem]
 
 /-- an implicit declaration is one-dimensional with eleven elements (0..10), carries the
-pre-initialisation flag, and — the finding — no string size: the default 32 and an empty size map -/
-theorem implicit_dim_shape (init : Bool) (name : String) :
-    (implicitDim init name).body =
+pre-initialisation flag and (since fix 2c284fb) the requested default string size; the per-name size
+map stays empty: the name is not DIMensioned in the source, so the default is what it gets -/
+theorem implicit_dim_shape (init : Bool) (dflt : Int) (name : String) :
+    (implicitDim init dflt name).body =
       .dim [.arr (.var name (name.endsWith "$")) (.mk true [.lit (.int 11) false]) (name.endsWith "$")]
-        init 32 [] [] ∧ (implicitDim init name).num = none := by
+        init dflt [] [] ∧ (implicitDim init dflt name).num = none := by
   simp [implicitDim]
 
 /-- they are placed before every line of the program -/
-theorem implicit_before_use (names : List String) (init : Bool) (lines : List Line) :
-    (names.map (implicitDim init) ++ lines).take names.length = names.map (implicitDim init) := by
+theorem implicit_before_use (names : List String) (init : Bool) (dflt : Int) (lines : List Line) :
+    (names.map (implicitDim init dflt) ++ lines).take names.length = names.map (implicitDim init dflt) := by
   simp
 
 /-- String scalars: with a non-default string size every string variable that a visitor meets and
